@@ -1645,6 +1645,55 @@ def eqv_table(w):
     return f, rows
 
 
+def eqv_number_table(w, f):
+    """the native procedure `f` (the target registered for eqv? / eq?) on every ordered pair of sample numbers: two numbers are
+    equivalent only when they are of the same exactness and numerically equal — an exact 2 and an inexact 2.0 are not"""
+    fb = w.fb
+    num = dict((n, i) for i, n in fb.variants("values::Number"))
+    samples = [("2", lambda: w.named(num, "Integer", [2])), ("3", lambda: w.named(num, "Integer", [3])),
+               ("1/2", lambda: w.named(num, "Rational", [1, 2])), ("2/3", lambda: w.named(num, "Rational", [2, 3])),
+               ("2.0", lambda: w.named(num, "Real", [2.0])), ("3.0", lambda: w.named(num, "Real", [3.0])), ("0.5", lambda: w.named(num, "Real", [0.5]))]
+    rows = []
+    for na, mka in samples:
+        for nb, mkb in samples:
+            r = Run(w)
+            try:
+                res = r.run(f, [[w.named(w.val, "Number", [mka()]), w.named(w.val, "Number", [mkb()])]])
+            except (absint.Stuck, absint.Loop) as e:
+                rows.append(((na, nb), {"stuck": str(e)}))
+                continue
+            got = None
+            if isinstance(res, Enum) and getattr(res, "name", None) == "Ok" and res.fields and isinstance(res.fields[0], Enum) \
+                    and getattr(res.fields[0], "name", None) == "Boolean" and isinstance(res.fields[0].fields[0], bool):
+                got = res.fields[0].fields[0]
+            rows.append(((na, nb), {"got": got, "want": na == nb, "result": res}))
+    return rows
+
+
+def rule_eqv_numbers(ctx, rule, name, f):
+    """-> number of rows decided"""
+    from .ctx import where_of
+    w = tables(ctx.fb())["w"]
+    n = 0
+    stuck = {}
+    for (na, nb), d in eqv_number_table(w, f):
+        key = "%s/table/%s,%s" % (name, na, nb)
+        if "stuck" in d or d["got"] is None:
+            stuck.setdefault(d.get("stuck") or "the result is not a known boolean", []).append("(%s, %s)" % (na, nb))
+            continue
+        n += 1
+        good = d["got"] == d["want"]
+        ctx.inst(rule, key, {"answer": d["got"]})
+        ctx.oblige(good)
+        if not good:
+            ctx.report(rule, key, "(%s %s %s) answers %s, expected %s: numbers are equivalent only when they have the same exactness and the "
+                       "same value" % (name, na, nb, "#t" if d["got"] else "#f", "#t" if d["want"] else "#f"), where_of(f))
+    for why, pairs in sorted(stuck.items()):
+        ctx.undecided(rule, "%s/table" % name, "cannot follow the native %s on %d pair(s) of numbers, e.g. %s (%s)" % (name, len(pairs), pairs[0], why),
+                      where_of(f))
+    return n
+
+
 def rule_eqv_kinds(ctx, rule):
     fb = ctx.fb()
     from .ctx import where_of
